@@ -10,7 +10,9 @@ package command
 
 import (
 	"fmt"
+	"os"
 	"strings"
+	"syscall"
 	"time"
 
 	"github.com/v-byte-cpu/sx/zzref"
@@ -149,7 +151,8 @@ func c15build(k c15case) (*vE2ESpec, *int64) {
 			}
 			w.WriteErr = func(n int, _ []byte) error {
 				if n == nth-1 {
-					return fmt.Errorf("sendto: no buffer space available")
+					// the errno itself: code that looks at the kind of failure (to retry, say) sees a real one
+					return os.NewSyscallError("sendto", syscall.ENOBUFS)
 				}
 				return nil
 			}
